@@ -516,7 +516,7 @@ pub fn run(tier: Tier, _seed: u64, tally: &mut Tally) -> CheckMeta {
     let mut total = 0u64;
     let cap = if tier.thorough() { 400_000 } else { 20_000 };
     let started = std::time::Instant::now();
-    let wall_cap = if tier.thorough() { 3000 } else { 150 };
+    let wall_cap = if tier.thorough() { 6000 } else { 900 };
     for (cfg, bound) in &cfgs {
         if started.elapsed().as_secs() > wall_cap {
             tally.caps_hit.push(format!("c13: wall cap {} s reached before {}", wall_cap, cfg.name()));
